@@ -923,3 +923,14 @@ Proof.
     apply (linear_iff_bool ss os x lc lc' eq); auto; try lia. rewrite Hx; exact R1.
   - injection Hc as <- <-. cbn. rewrite bounds_iff_bool by (auto; lia). reflexivity.
 Qed.
+
+(* ================================================================================================ *)
+(* trackers without a tolerance: the retained "last" result is a function of which delivered results  *)
+(* have function values only -- in particular it is the same with and without transforms             *)
+(* ================================================================================================ *)
+Lemma last_ok_no_tolerance a : forall b i, map ti_fun a = map ti_fun b -> last_ok None a i = last_ok None b i.
+Proof.
+  induction a as [|x a IH]; intros [|y b] i H; cbn in H; try discriminate; [reflexivity|].
+  injection H as Hx Hr. cbn [last_ok]. rewrite (IH b (S i) Hr).
+  unfold ti_ok, feasible, violates. rewrite Hx. reflexivity.
+Qed.
